@@ -242,4 +242,5 @@ RULES = [
     ("R-C19-6", "replay registers every historical .define in order, so the latest VALID definition is in force after a restart", r6),
     ("R-C19-4", "calls are dispatched only after the replay phase (shared with R-C17-2)", c17.r2),
     ("R-C19-5", "registry keyed by (context, name): the latest definition of that key wins (shared with R-C17-1)", c17.r1),
+    ("R-C19-7", "the command dispatcher keeps serving: following subscription, threshold ends replay, the live loop ends only with the stream (shared with R-C17-6)", lambda run: __import__("rules.C17", fromlist=["x"]).rule_dispatcher_shape(run, ("xs::commands::serve",))),
 ]
